@@ -93,7 +93,7 @@ def tsan_reports(logdir):
 def run(tier):
     rep = Report("C20", tier)
     s = seed()
-    n = 150 if tier == "quick" else 2000
+    n = 150 if tier == "quick" else common.tscale(2000)
     cases = [make_case(i, s, tier) for i in range(n)]
     stats = {"cases": 0, "thread_runs": 0, "fm_observations": 0, "cross_thread_modules": 0}
     flavors = [("dbg", n)] if tier == "quick" else [("dbg", n), ("rel", n), ("asan", 200), ("tsan", 200)]
